@@ -5,8 +5,9 @@ Local Open Scope N_scope.
 Inductive c12case :=
 (* mutation-id history as the driver enacted it on a child process, and the ids it was given *)
 | CMut (evs : list mevent) (ids : list N)
-(* label history (background goroutines awaited after each ingest) and the ranges POST nextlabel returned *)
-| CLab (evs : list levent) (ranges : list (N * N))
+(* label history (background goroutines awaited after each ingest) and, for every allocation request
+   for at least one label, the range returned (None: the server refused the request) *)
+| CLab (evs : list levent) (outs : list (option (N * N)))
 (* POST blocks immediately followed by POST nextlabel/1: (largest label just ingested, label handed out) *)
 | CRace (rounds : list (N * N))
 (* version ids and instance ids in the order they were acknowledged, across kills and restarts *)
@@ -14,29 +15,51 @@ Inductive c12case :=
 
 Definition nn_eqb (a b : N * N) : bool := (fst a =? fst b) && (snd a =? snd b).
 
+Definition oeqb (a b : option (N * N)) : bool :=
+  match a, b with Some x, Some y => nn_eqb x y | None, None => true | _, _ => false end.
+
+(* what the machine answers to each allocation request for n > 0 labels *)
+Fixpoint alloc_outcomes (s : lstate) (evs : list levent) : list (option (N * N)) :=
+  match evs with
+  | [] => []
+  | e :: r =>
+    let '(s1, o) := lstep s e in
+    match e with
+    | LAlloc _ n => if n =? 0 then alloc_outcomes s1 r else o :: alloc_outcomes s1 r
+    | _ => alloc_outcomes s1 r
+    end
+  end.
+
+Fixpoint served (outs : list (option (N * N))) : list (N * N) :=
+  match outs with [] => [] | Some x :: r => x :: served r | None :: r => served r end.
+
 Definition model_ok (c : c12case) : bool :=
   match c with
   | CMut evs ids =>
     list_eqb N.eqb (snd (mrun n_ids_StrideMutationID (m_fresh n_ids_InitialMutationID n_ids_StrideMutationID) evs)) ids
-  | CLab evs ranges =>
+  | CLab evs outs =>
     (* instance created by the repaired code (initial maximum persisted) or as the code stood *)
-    list_eqb nn_eqb (snd (lrun l_fresh evs)) ranges || list_eqb nn_eqb (snd (lrun l_fresh_unrepaired evs)) ranges
+    list_eqb oeqb (alloc_outcomes l_fresh evs) outs || list_eqb oeqb (alloc_outcomes l_fresh_unrepaired evs) outs
   | CRace _ => true
   | CIds _ _ => true
   end.
 
 (* labels known to be in the volume before each allocation of a label history, from the events
-   alone (no model state): ingested block maxima, posted max labels are NOT labels in the volume *)
-Fixpoint fresh_ok (evs : list levent) (ranges : list (N * N)) (present : list N) : bool :=
+   alone (no model state): ingested block maxima, posted maxima and the body labels of posted indices *)
+Fixpoint fresh_ok (evs : list levent) (ranges : list (option (N * N))) (present : list N) : bool :=
   match evs with
   | [] => true
   | LAlloc _ n :: r =>
     if n =? 0 then fresh_ok r ranges present else
     match ranges with
-    | (b, e) :: rs => forallb (fun l => l <? b) present && fresh_ok r rs present
+    | Some (b, e) :: rs =>
+      (* a served request is above everything present and stays below 2^64 *)
+      forallb (fun l => l <? b) present && (e <=? max_label) && fresh_ok r rs present
+    | None :: rs => fresh_ok r rs present      (* refused: nothing was handed out *)
     | [] => true
     end
   | LIngest _ bms :: r => fresh_ok r ranges (bms ++ present)
+  | LSetMax _ l :: r => fresh_ok r ranges (l :: present)   (* a posted maximum / an index's body label *)
   | _ :: r => fresh_ok r ranges present
   end.
 
@@ -49,9 +72,9 @@ Fixpoint fresh_ok (evs : list levent) (ranges : list (N * N)) (present : list N)
 Definition spec_class (c : c12case) : nat :=
   match c with
   | CMut _ ids => if increasingb ids then 0%nat else 1%nat
-  | CLab evs ranges =>
-    if negb (ranges_increasingb 0 ranges) then 2%nat
-    else if fresh_ok evs ranges [] then 0%nat else 3%nat
+  | CLab evs outs =>
+    if negb (ranges_increasingb 0 (served outs)) then 2%nat
+    else if fresh_ok evs outs [] then 0%nat else 3%nat
   | CRace rounds => if forallb (fun r : N * N => fst r <? snd r) rounds then 0%nat else 3%nat
   | CIds vids iids => if increasingb vids && increasingb iids then 0%nat else 4%nat
   end.
